@@ -4,7 +4,7 @@
 import Hv.Storage.Fault
 import Hv.Storage.SessionCrash
 
-namespace Hv.Storage
+namespace Hv.BlockStore
 
 theorem applyRes_ok (d : Disk) (op : FsOp) : d.applyRes op .ok = d.apply op := by
   cases op <;> simp [Disk.applyRes, Res.written, Res.isOk]
@@ -69,4 +69,4 @@ theorem syncWF_nofault_disk (c : Cfg) (fc : FCfg) (mk : Mk) (s : FSt) (h : s.rs 
   · simp [hf.2.1, hpn.1, hpn.2, Disk.applyAll_append, Disk.applyAll]
   · simp [hf.2.1, hpn.1, hpn.2, Disk.applyAll_append, Disk.applyAll, Disk.apply, applyRes_ok, nextRes]
 
-end Hv.Storage
+end Hv.BlockStore
